@@ -4,7 +4,7 @@ import json, glob, re, os
 pick = {
  'C01': ['replica_blocks_compared','restart_points','commit_kill_points','race_calls'],
  'C02': ['block_boundaries','mints','txs','genesis_orders_of_blocked_module_accounts'],
- 'C03': ['sequences','orders_completed','orders_terminal'],
+ 'C03': ['sequences','orders_completed','orders_terminal','crowd_orders'],
  'C04': ['book_checks','completions','unlocks','gov_purchaser_orders'],
  'C05': ['unlocks_observed','completions_observed','txs'],
  'C06': ['checktx','admitted','admitted_executed','fee_granter_txs'],
@@ -20,7 +20,7 @@ pick = {
  'C16': ['proposals','invalid_proposals','valid_applied','signer_effect_probes','stale_fee_probes'],
  'C17': ['supply_queries','page_walks'],
  'C18': ['key_pairs','keeper_entities','top_of_id_space_ops'],
- 'C19': ['conversions','command_runs'],
+ 'C19': ['conversions','command_runs','cli_runs'],
  'C20': ['page_walks','items_compared','reimports'],
 }
 common = ['mid_block_reads_compared','simulated_before_delivery','checked_before_delivery','reimports','gov_proposals_rolled_back']
